@@ -100,10 +100,21 @@ def parseTwoExt (impl : String) : Option (Project × Project) :=
     else none
   | _ => none
 
-def filesOracle (b o : Project) (impl : String) : List (Option String) :=
+/-- working directories of the base's processes that the later files do not set: resolved against
+    the directory of the file that defines them (`want`: the model's extends result, whose
+    directories are the aliases `@A`, `@B` the harness substitutes for the real ones) -/
+def wdOracle (bases : List Project) (later : List Project) (want ext : Project) : Option String :=
+  ext.findSome? fun (n, q) =>
+    if bases.any (fun b => (lookupProc b n).isSome) && later.all (fun o => scalarOf ((lookupProc o n).getD {}) "working_dir" == "") then
+      let w := scalarOf ((lookupProc want n).getD {}) "working_dir"
+      if scalarOf q "working_dir" != w then some ("base-working-dir-not-resolved-against-its-file " ++ n) else none
+    else none
+
+def filesOracle (b o : Project) (impl : String) (mext : Project := []) : List (Option String) :=
   match parseTwoExt impl with
   | none => [some ("load-failed " ++ impl.take 60)]
   | some (two, ext) =>
+    [wdOracle [b] [o] mext ext] ++
     let names := sortStrings ((b.map (·.1) ++ (o.filter fun (n, _) => (lookupProc b n).isNone).map (·.1)))
     [ if sortStrings (two.map (·.1)) == names then none else some "process-of-one-file-lost",
       if showProj (maskWd two) == showProj (maskWd ext) then none else some "extends-differs-from-two-files",
@@ -146,7 +157,7 @@ def step (_ : Unit) (line : String) : Unit × String :=
       let two := (mergeChain fields [b, o]).map fun (n, p) => (n, defaults p)
       let ext := (loadExtends fields "@B" b o).map fun (n, p) => (n, defaults p)
       let m := "two=" ++ showProj two ++ " ext=" ++ showProj ext
-      ((), m ++ " ||| " ++ verdictOf (filesOracle b o impl))
+      ((), m ++ " ||| " ++ verdictOf (filesOracle b o impl ext))
     | _, _ => ((), "bad-op")
   | ["mchain", a, b, c] =>
     match parseProj a, parseProj b, parseProj c with
@@ -156,7 +167,8 @@ def step (_ : Unit) (line : String) : Unit × String :=
       let m := "two=" ++ showProj three ++ " ext=" ++ showProj ext
       let v := match parseTwoExt impl with
         | none => "bad:C15:C15:load-failed"
-        | some (t, e) => verdictOf [if showProj (maskWd t) == showProj (maskWd e) then none else some "extends-chain-differs-from-naming-the-files"]
+        | some (t, e) => verdictOf [if showProj (maskWd t) == showProj (maskWd e) then none else some "extends-chain-differs-from-naming-the-files",
+                                    wdOracle [a, b] [c] ext e]
       ((), m ++ " ||| " ++ v)
     | _, _, _ => ((), "bad-op")
   | _ => ((), "bad-op")
